@@ -19,21 +19,22 @@ import (
 )
 
 type ftObs struct {
-	Sid      int      `json:"sid"`
-	W        int      `json:"w"`
-	K        int      `json:"k"`
-	Cont     string   `json:"cont"`
-	Call     string   `json:"call"`   // API call that met the fault: open | put | finalize
-	Wkind    string   `json:"wkind"`  // which write of that call
-	Stream   bool     `json:"stream"` // plain io.Writer target (cannot be rewound)
-	V1       bool     `json:"v1"`
-	ErrRet   bool     `json:"errret"`   // the call that met the fault returned an error
-	Visible  bool     `json:"visible"`  // the failed block is reported by Has/Get afterwards
-	FinOK    bool     `json:"finok"`    // a later Finalize returned nil
-	Well     bool     `json:"well"`     // finished archive well formed (reference decode + Inspect)
-	Exact    bool     `json:"exact"`    // it holds exactly the blocks whose Put returned nil
-	Acked    []string `json:"acked"`
-	Msg      string   `json:"msg"`
+	Sid     int      `json:"sid"`
+	W       int      `json:"w"`
+	K       int      `json:"k"`
+	Cont    string   `json:"cont"`
+	Call    string   `json:"call"`   // API call that met the fault: open | put | finalize
+	Wkind   string   `json:"wkind"`  // which write of that call
+	Stream  bool     `json:"stream"` // plain io.Writer target (cannot be rewound)
+	V1      bool     `json:"v1"`
+	ErrRet  bool     `json:"errret"`  // the call that met the fault returned an error
+	Visible bool     `json:"visible"` // the failed block is reported by Has/Get afterwards
+	FinOK   bool     `json:"finok"`   // a later Finalize returned nil
+	Well    bool     `json:"well"`    // finished archive well formed (reference decode + Inspect)
+	Exact   bool     `json:"exact"`   // it holds exactly the blocks whose Put returned nil
+	Acked   []string `json:"acked"`
+	Msg     string   `json:"msg"`
+	Faults  int      `json:"faults"` // number of faults injected in the session (1 or 2)
 }
 
 var errInjected = errors.New("injected write fault")
@@ -43,6 +44,7 @@ type ftPlan struct {
 	Stream bool
 	Puts   []string
 	Many   int // blockstore only: the first Many blocks are written by one PutMany call
+	Second int // blockstore only: after the first fault a second one is armed Second bytes into the next section written
 }
 
 // failingStream: plain io.Writer with the same fault hook.
@@ -64,18 +66,32 @@ func (f *failingStream) Write(p []byte) (int, error) {
 	return f.buf.Write(p)
 }
 
-func runFaultPoint(sid int, pl ftPlan, w, k int, cont string) (ftObs, int) {
+// k2 >= 0: the write that follows the faulted one (the first write of the next call) fails too,
+// persisting k2 bytes: two transient faults in one session.
+func runFaultPoint(sid int, pl ftPlan, w, k int, cont string, k2 int) (ftObs, int) {
 	o := ftObs{Sid: sid, W: w, K: k, Cont: cont, Stream: pl.Stream, V1: pl.O.V1, Acked: []string{}}
 	widx := 0
 	fired := false
+	faults := 0
+	second := func(n int) (int, error, bool) {
+		if fired && k2 >= 0 && faults == 1 {
+			faults++
+			return min(k2, n), errInjected, true
+		}
+		return 0, nil, false
+	}
 	lastLen := -1
 	mem := &memFile{}
 	stream := &failingStream{}
 	mem.fail = func(op *wop) (int, error) {
 		i := widx
 		widx++
+		if n, err, ok := second(len(op.Data)); ok {
+			return n, err
+		}
 		if i == w && !fired {
 			fired = true
+			faults++
 			lastLen = len(op.Data)
 			kk := k
 			if kk > len(op.Data) {
@@ -86,8 +102,12 @@ func runFaultPoint(sid int, pl ftPlan, w, k int, cont string) (ftObs, int) {
 		return 0, nil
 	}
 	stream.fail = func(i int, p []byte) (int, error) {
+		if n, err, ok := second(len(p)); ok {
+			return n, err
+		}
 		if i == w && !fired {
 			fired = true
+			faults++
 			lastLen = len(p)
 			kk := k
 			if kk > len(p) {
@@ -129,7 +149,18 @@ func runFaultPoint(sid int, pl ftPlan, w, k int, cont string) (ftObs, int) {
 		id := pl.Puts[pi]
 		b := alphaByID[id]
 		was := fired
+		nf := faults
 		err := sc.Put(bg, b.Cid.KeyString(), b.Data)
+		if was && faults > nf {
+			// this call met the second fault: same obligations
+			if err == nil {
+				o.ErrRet = false
+				o.Msg += " the call that met the second fault returned nil;"
+			} else if has, herr := sc.Has(bg, b.Cid.KeyString()); herr == nil && has {
+				o.Visible = true
+			}
+			continue
+		}
 		if !was && fired {
 			o.Call, o.ErrRet = "put", err != nil
 			failedBlock = id
@@ -152,8 +183,13 @@ func runFaultPoint(sid int, pl ftPlan, w, k int, cont string) (ftObs, int) {
 			switch cont {
 			case "retry":
 				if err != nil {
+					nf2 := faults
 					if err2 := sc.Put(bg, b.Cid.KeyString(), b.Data); err2 == nil {
 						acked[id] = true
+						if faults > nf2 {
+							o.ErrRet = false
+							o.Msg += " the retry met the second fault and returned nil;"
+						}
 					}
 				}
 			case "finalize":
@@ -166,7 +202,12 @@ func runFaultPoint(sid int, pl ftPlan, w, k int, cont string) (ftObs, int) {
 		}
 	}
 	was := fired
+	nff := faults
 	ferr := sc.Finalize()
+	if was && faults > nff && ferr == nil {
+		o.ErrRet = false
+		o.Msg += " Finalize met the second fault and returned nil;"
+	}
 	if !was && fired {
 		o.Call, o.ErrRet = "finalize", ferr != nil
 		if cont == "retry" && ferr != nil {
@@ -174,6 +215,7 @@ func runFaultPoint(sid int, pl ftPlan, w, k int, cont string) (ftObs, int) {
 		}
 	}
 	_ = failedBlock
+	o.Faults = faults
 	for id := range acked {
 		o.Acked = append(o.Acked, id)
 	}
@@ -235,7 +277,8 @@ func runFaultEnum(args []string) int {
 	}
 	type job struct {
 		sid, w, k int
-		cont     string
+		cont      string
+		k2        int
 	}
 	jobs := make(chan job, 1024)
 	of, _ := os.Create(obsPath)
@@ -254,7 +297,7 @@ func runFaultEnum(args []string) int {
 							o = ftObs{Sid: j.sid + 1, W: j.w, K: j.k, Cont: j.cont, Call: "panic", Msg: fmt.Sprint(r), Acked: []string{}}
 						}
 					}()
-					o, _ = runFaultPoint(j.sid+1, plans[j.sid], j.w, j.k, j.cont)
+					o, _ = runFaultPoint(j.sid+1, plans[j.sid], j.w, j.k, j.cont, j.k2)
 				}()
 				b, _ := json.Marshal(o)
 				mu.Lock()
@@ -269,7 +312,7 @@ func runFaultEnum(args []string) int {
 	for sid, pl := range plans {
 		// learn the write lengths with a fault-free probe at each index
 		for w := 0; ; w++ {
-			_, n := runFaultPoint(sid+1, pl, w, 0, "next")
+			_, n := runFaultPoint(sid+1, pl, w, 0, "next", -1)
 			if n < 0 {
 				break // no such write
 			}
@@ -278,7 +321,11 @@ func runFaultEnum(args []string) int {
 					if n > 300 && k > 30 && k < n-30 && k%101 != 0 {
 						continue
 					}
-					jobs <- job{sid, w, k, cont}
+					jobs <- job{sid, w, k, cont, -1}
+				}
+				// two faults: the following write fails as well, after 0, 1 or 3 bytes
+				for _, k2 := range []int{0, 1, 3} {
+					jobs <- job{sid, w, n / 2, cont, k2}
 				}
 			}
 		}
